@@ -119,6 +119,12 @@ async def run_pickle_case(rng):
 
 # ---- sampled loopback runs: multiplexing over connections with reordering latencies ---------
 
+class FalsyValueError(ValueError):
+    """a falsy exception object (container-like): still the handler's exception"""
+    def __len__(self):
+        return 0
+
+
 class SlowPickle:
     """pickling this object takes 0.3 s: it keeps the client's event loop busy while another, partly written, large
     request is in flight on another connection"""
@@ -148,7 +154,7 @@ def run_mux_case(seed, n_requests=24, connections=3):
         i, blob = data
         await asyncio.sleep(lat[i])
         if i % 7 == 6:
-            raise ValueError(i)
+            raise (FalsyValueError if i % 2 else ValueError)(i)
         return (i, len(blob), blob[:8], sum(blob) % 65521)
 
     app = SocketApplication()
@@ -177,8 +183,9 @@ def run_mux_case(seed, n_requests=24, connections=3):
                 want = (i, len(blob), blob[:8], sum(blob) % 65521)
                 r = results.get(i)
                 if i % 7 == 6:
-                    if not (isinstance(r, ValueError) and r.args == (i,)):
-                        problems.append(f'request {i}: expected its own ValueError({i}), got {r!r:.80}')
+                    cls = FalsyValueError if i % 2 else ValueError
+                    if not (type(r) is cls and r.args == (i,)):
+                        problems.append(f'request {i}: expected its own {cls.__name__}({i}), got {r!r:.80}')
                 elif r != want:
                     problems.append(f'request {i}: response {r!r:.80} is not the handler\'s result for its payload')
             # a large request in flight while the sender's loop is busy pickling another one
@@ -188,6 +195,11 @@ def run_mux_case(seed, n_requests=24, connections=3):
             if outs != [wantb, ('slow', 7), wantb]:
                 problems.append(f'large request + slow-pickling request: got {outs!r:.120}')
             # stream preserves order
+            bad = [payloads[i] for i in range(n_requests) if i % 7 == 6][:4]
+            yb = list(client.stream('/echo', bad, response_timeout=30, return_exceptions=True))
+            if [(type(y), y.args) if isinstance(y, Exception) else y for y in yb] != \
+                    [((FalsyValueError if x[0] % 2 else ValueError), (x[0],)) for x in bad]:
+                problems.append(f'stream(return_exceptions=True) over failing requests {[x[0] for x in bad]} gave {yb!r:.120}')
             xs = [payloads[i] for i in range(n_requests) if i % 7 != 6]
             ys = list(client.stream('/echo', xs, response_timeout=30))
             wants = [(x[0], len(x[1]), x[1][:8], sum(x[1]) % 65521) for x in xs]
